@@ -54,15 +54,16 @@ type Config struct {
 
 // Call is one REST call in structured form.
 type Call struct {
-	Kind  string   // PS AS DS PG XA XR AE DG PP DP PR AR DR
-	Id    string   // object id (policy id for rule calls)
-	Rid   string   // rule id
-	Defn  string   // services
-	Expr  string   // expression id
-	RType string   // groups
-	Addrs []string // groups
-	Rule  *Rule    // PR AR
-	Rules []Rule   // PP
+	Kind    string   // PS AS DS PG XA XR AE DG PP DP PR AR DR
+	Id      string   // object id (policy id for rule calls)
+	Rid     string   // rule id
+	Defn    string   // services: canonical form (svc.go)
+	RawDefn string   // services: the bytes of service_entries in the body the real code sent (not on the wire)
+	Expr    string   // expression id
+	RType   string   // groups
+	Addrs   []string // groups
+	Rule    *Rule    // PR AR
+	Rules   []Rule   // PP
 }
 
 const (
